@@ -431,12 +431,36 @@ Definition ok_app_args_nonempty (doc : tsdoc) : bool :=
              match dir_args a with Some x => negb (match args_list x with [] => true | _ => false end) | None => true end)
              (snd la)) (all_apps doc).
 
+(** * `implements` must not be cyclic
+    Spec 3.7 (Interfaces, type validation): "An interface type may declare that it implements one or more unique
+    interfaces, but may not implement itself", and the implementing type "must also declare it implements" every
+    interface its interfaces implement.  Together: following `implements` declarations from a type never leads
+    back to it (a cycle A -> B -> A would force A to declare A).  Stated directly: *)
+Definition iedge (doc : tsdoc) (a b : str) : Prop :=
+  exists n impls fs, In (n, impls, fs) (comps doc) /\ iname n = a /\ declares impls b = true.
+Inductive ipath (doc : tsdoc) : nat -> str -> str -> Prop :=
+| ipath0 a : ipath doc 0 a a
+| ipathS n a b c : iedge doc a b -> ipath doc n b c -> ipath doc (S n) a c.
+Definition implements_acyclic (doc : tsdoc) : Prop := forall n a, ~ ipath doc (S n) a a.
+
+(** executable reading: close the set of declared interface names of a type under "declares" ([length doc] rounds) *)
+Definition impls_of (doc : tsdoc) (n : str) : list str :=
+  flat_map (fun c : ident * list ident * list fielddef => if str_eqb (iname (fst (fst c))) n then map iname (snd (fst c)) else [])
+           (comps doc).
+Fixpoint impl_closure (doc : tsdoc) (fuel : nat) (seen : list str) : list str :=
+  match fuel with O => seen | S f => impl_closure doc f (add_new seen (flat_map (impls_of doc) seen)) end.
+Definition ok_implements_acyclic (doc : tsdoc) : bool :=
+  forallb (fun c : ident * list ident * list fielddef =>
+             negb (existsb (str_eqb (iname (fst (fst c))))
+                           (impl_closure doc (length doc) (add_new [] (map iname (snd (fst c))))))) (comps doc).
+
 (** well-formedness premises under which the rule booleans are read *)
 Definition wf_doc (doc : tsdoc) : bool := unique_names doc && ok_app_arg_unique doc && ok_app_args_nonempty doc.
 
 Definition spec_valid (doc : tsdoc) : bool :=
   unique_names doc && forallb (fun r => rule_ok r doc) all_rules &&
-  ok_app_arg_unique doc && ok_app_args_nonempty doc && root_ok doc && nonempty_ok doc && implements_unique_ok doc.
+  ok_app_arg_unique doc && ok_app_args_nonempty doc && root_ok doc && nonempty_ok doc && implements_unique_ok doc &&
+  ok_implements_acyclic doc.
 
 (** * before extensions are resolved: two definitions of the same kind with one name (spec: type names are unique) *)
 Definition same_kind (a b : typedef) : bool :=
